@@ -16,8 +16,8 @@ META = {
     "harness_bins": ["nkeval"],
     "extract": "C09.v",
     "technique": "Coq proof: substitution/abstraction laws of a fuel-indexed call-by-name semantics with environments (symmetric simulation relation on closures + simulation theorem), and refinement of a call-by-need heap machine (thunks, update after evaluation, black-holing, no update frame for values, recursive groups for let rec / record literals) to it; tied to the Rust evaluator by running generated programs, their let-/beta-/field-/element-/import-/seq-rewrites and --field extraction on the implementation (direct oracle) and on both extracted models",
-    "level_text": "Theorems (coq/Props/C09.v), for every term, environment and fuel: let_abs and beta_abs (binder outermost, arbitrary multi-hole body as capture-free substitution), field_abs, elem_abs, import_abs and their closure under arbitrary program contexts (ctx_abs: any number of positions, under any binders), seq_ok, field_extraction (path value in the full export = field extraction = export of e.path) and field_extraction_lazy (extraction succeeds exactly when the path's own value does) on the call-by-name semantics S; need_refines_name: the heap machine with update frames, should_update and black-holing returns S's result whenever it returns a result other than OutOfFuel/InfiniteRec, for every program (let rec and recursive records included) whose record literals have distinct field names, also for field extraction on the machine; a wrong-cell update and a caller-environment variant of the machine are refuted. The models are hand-written readings of eval/mod.rs, eval/cache/lazy.rs, closurize.rs; the tie is the correspondence run: generated programs (the Coq fragment, and a broader Nickel fragment with match, interpolation, contracts, merges, std calls) evaluated by the Rust implementation before/after each rewrite and with field=<path>, and by both extracted models.",
-    "level_note": "Trusted: Coq kernel; extraction (ExtrOcamlBasic + ExtrOcamlNativeString); harness bin nkeval; the Python generator/printer; the reading of the Rust evaluator in coq/Lazy/Need.v (value-level: Rc<RefCell> thunks as cells of a list heap that keep a ghost copy of their original closure; revertible thunks only as a tag; stack and update frames as the recursion of a big-step function). Partial: a reported black hole (InfiniteRec) is not proved to be a divergence of S (C09_full_need_refines_name is stated, the proved theorem excludes that result); let_abs/beta_abs are proved with the binder outermost (as in the property statement), the other rewrites inside arbitrary contexts; contracts, merges, match, interpolation and the standard library are outside the Coq fragment and covered by the direct oracle only.",
+    "level_text": "Theorems (coq/Props/C09.v), for every term, environment and fuel: let_abs and beta_abs (binder outermost, arbitrary multi-hole body as capture-free substitution), field_abs, elem_abs, import_abs and their closure under arbitrary program contexts (ctx_abs: any number of positions, under any binders), seq_ok, field_extraction (path value in the full export = field extraction = export of e.path) and field_extraction_lazy (extraction succeeds exactly when the path's own value does) on the call-by-name semantics S; need_refines_name: whenever the heap machine with update frames, should_update and black-holing returns a result other than OutOfFuel, S returns the same result for some fuel, and when it reports a black hole (InfiniteRec) S diverges -- for every program (let rec and recursive records included) whose record literals have distinct field names, also for field extraction on the machine; a wrong-cell update and a caller-environment variant of the machine are refuted. The models are hand-written readings of eval/mod.rs, eval/cache/lazy.rs, closurize.rs; the tie is the correspondence run: generated programs (the Coq fragment, and a broader Nickel fragment with match, interpolation, contracts, merges, std calls) evaluated by the Rust implementation before/after each rewrite and with field=<path>, and by both extracted models.",
+    "level_note": "Trusted: Coq kernel; extraction (ExtrOcamlBasic + ExtrOcamlNativeString); harness bin nkeval; the Python generator/printer; the reading of the Rust evaluator in coq/Lazy/Need.v (value-level: Rc<RefCell> thunks as cells of a list heap that keep a ghost copy of their original closure; revertible thunks only as a tag; stack and update frames as the recursion of a big-step function). Partial: let_abs/beta_abs are proved with the binder outermost (as in the property statement), the other rewrites inside arbitrary contexts; contracts, merges, match, interpolation and the standard library are outside the Coq fragment and covered by the direct oracle only.",
 }
 
 NUMS = [0, 1, 2, 3, 5, 7, 10, -1, -4]
@@ -952,7 +952,7 @@ def run(ck):
                            "position is abstracted by let, beta (binder at a random capture-free ancestor), {f = e}.f, std.array.at 0 [e], "
                            "import (closed sub-expressions), plus std.seq v p, plus field=<path> vs full export with and without an added "
                            "failing sibling; non-trivial = program size >= 6; distinct by source text")
-    ck.coverage["partial"] = ("black-hole soundness (InfiniteRec => S diverges) is stated, not proved; let/beta laws with the binder outermost; "
+    ck.coverage["partial"] = ("let/beta laws with the binder outermost (the other rewrites under arbitrary contexts); "
                               "contracts, merges, match, interpolation and std calls are outside the Coq fragment (direct oracle only)")
     ck.trusted += ["extraction: ExtrOcamlBasic + ExtrOcamlNativeString", "harness bin nkeval (harness/src/eval.rs)",
                    "generator and printers in checks/c09.py (SplitMix64, VERIF_SEED)"]
